@@ -2768,6 +2768,7 @@ func doCompositeBinStruct(n *node, hasType bool) {
 
 	frameIndex := n.findex
 	l := n.level
+	isAssign := n.anc.kind == assignStmt
 
 	n.exec = func(f *frame) bltn {
 		s := reflect.New(typ).Elem()
@@ -2778,6 +2779,9 @@ func doCompositeBinStruct(n *node, hasType bool) {
 		switch {
 		case d.Kind() == reflect.Ptr:
 			d.Set(s.Addr())
+		case isAssign:
+			// An assigned variable keeps its identity (pointers to it, closures).
+			d.Set(s)
 		default:
 			getFrame(f, l).data[frameIndex] = s
 		}
@@ -2838,6 +2842,7 @@ func doComposite(n *node, hasType bool, keyed bool) {
 	frameIndex := n.findex
 	l := n.level
 	rt := typ.TypeOf()
+	isAssign := n.anc.kind == assignStmt
 
 	n.exec = func(f *frame) bltn {
 		a := reflect.New(rt).Elem()
@@ -2853,6 +2858,9 @@ func doComposite(n *node, hasType bool, keyed bool) {
 				d.Set(reflect.ValueOf(valueInterface{n, a}))
 				break
 			}
+			d.Set(a)
+		case isAssign:
+			// An assigned variable keeps its identity (pointers to it, closures).
 			d.Set(a)
 		default:
 			getFrame(f, l).data[frameIndex] = a
